@@ -13,7 +13,19 @@ use chumsky::{Boxed, ConfigIterParser, ConfigParser, IterParser, Parser};
 
 pub type X<E> = extra::Full<E, St, Val>;
 pub type P<'a, I, E> = Boxed<'a, 'a, I, Val, X<E>>;
-pub type Env<'a, I, E> = Vec<Recursive<Direct<'a, 'a, I, Val, X<E>>>>;
+pub enum Bound<'a, I: Kind<'a>, E: ErrTy<'a, I>> {
+    Rec(Recursive<Direct<'a, 'a, I, Val, X<E>>>),
+    Let(P<'a, I, E>, usize),
+}
+impl<'a, I: Kind<'a>, E: ErrTy<'a, I>> Clone for Bound<'a, I, E> {
+    fn clone(&self) -> Self {
+        match self {
+            Bound::Rec(r) => Bound::Rec(r.clone()),
+            Bound::Let(p, n) => Bound::Let(p.clone(), *n),
+        }
+    }
+}
+pub type Env<'a, I, E> = Vec<Bound<'a, I, E>>;
 
 pub trait Kind<'a>: ValueInput<'a, Token: Tok, Span: SpanObs> + Sized + 'a {
     const NAME: &'static str;
@@ -544,7 +556,7 @@ where
             let mut err = None;
             let p = recursive(|r| {
                 let mut env2 = env.clone();
-                env2.push(r);
+                env2.push(Bound::Rec(r));
                 match build(body, &env2) {
                     Ok(p) => p,
                     Err(e) => {
@@ -562,7 +574,26 @@ where
             if *k == 0 || *k > env.len() {
                 return Err(format!("dangling recursive reference {k}"));
             }
-            env[env.len() - *k].clone().boxed()
+            match &env[env.len() - *k] {
+                Bound::Rec(r) => r.clone().boxed(),
+                Bound::Let(..) => return Err("ref to a let binding".into()),
+            }
+        }
+        G::Let(def, body) => {
+            // the definition is built once; every `var` use is a clone of that boxed parser (same allocation)
+            let d = build(def, env)?;
+            let mut env2 = env.clone();
+            env2.push(Bound::Let(d, env.len()));
+            build(body, &env2)?
+        }
+        G::Var(k) => {
+            if *k == 0 || *k > env.len() {
+                return Err(format!("dangling variable {k}"));
+            }
+            match &env[env.len() - *k] {
+                Bound::Let(p, _) => p.clone(),
+                Bound::Rec(_) => return Err("var to a rec binding".into()),
+            }
         }
         G::WithCtx(c, a) => build(a, env)?.with_ctx(c.clone()).boxed(),
         G::ThenCtx(a, b) => {
